@@ -10,6 +10,7 @@ package c06
 import (
 	"encoding/json"
 	"fmt"
+	"os"
 
 	"verif/checks/chainx"
 	"verif/mc"
@@ -20,12 +21,13 @@ func hooks(r *mc.Run) chainx.Hooks {
 	if !r.Quick() {
 		n = 10
 	}
-	return chainx.Hooks{Imports: n, Warm: true}
+	// VERIF_C06_NO_WORKER=1 (testing aid): leave the real-miner-worker oracles out
+	return chainx.Hooks{Imports: n, Warm: true, Worker: os.Getenv("VERIF_C06_NO_WORKER") == ""}
 }
 
 func Run(r *mc.Run) {
 	r.Level = "model_checking"
-	r.Rule = "every sequence of <= depth blocks over the block menu, from genesis and from 5 scripted non-initial states; each built block is imported R times on independent database copies (R=2 quick, 10 thorough); distinct = distinct head block hashes reached"
+	r.Rule = "every sequence of <= depth blocks over the block menu, from genesis and from 5 scripted non-initial states; each built block is imported R times on independent database copies (R=2 quick, 10 thorough); distinct = distinct head block hashes reached; a second, small menu (chainx.MenuBuilderPaths) explores the blocks that take the builder through its failure branches: a pending transaction that fails with an ApplyTransaction error after a state change (must be rolled back), nonce gaps behind it, two senders in one block, pool-refused transactions"
 	noForced := chainx.DefaultCfg
 	noForced.MaxRewardsPeriod = 1000
 	forced := chainx.DefaultCfg
@@ -35,17 +37,24 @@ func Run(r *mc.Run) {
 	h := hooks(r)
 	r.SetExtra("imports_per_block", h.Imports)
 	if r.Quick() {
-		r.SetBudget(170e9)
-		runForks(r) // first: cheap, and independent of the exploration budget
+		r.SetBudget(230e9) // 170 s before the real-miner-worker oracles were added
+		runForks(r)        // first: cheap, and independent of the exploration budget
+		// the builder's failure branches (ApplyTransaction error after a state change, nonce gaps behind it, two senders in one block)
+		chainx.Explore(r, h, []chainx.ParamCfg{noForced}, chainx.MenuBuilderPaths, 2, 1)
 		chainx.Explore(r, h, []chainx.ParamCfg{noForced}, chainx.MenuCore, 3, 2)
 		chainx.Explore(r, h, []chainx.ParamCfg{forced}, chainx.MenuCore, 2, 2)
 	} else {
 		r.SetBudget(45 * 60e9)
 		menu := append(append([]string{}, chainx.MenuCore...), chainx.MenuMore...)
+		chainx.Explore(r, h, []chainx.ParamCfg{noForced, freq3}, chainx.MenuBuilderPaths, 3, 2)
 		chainx.Explore(r, h, []chainx.ParamCfg{noForced, freq3, forced}, menu, 4, 3)
 	}
 	if !r.Quick() {
 		runForks(r)
+	}
+	if h.Worker {
+		r.Rule += "; REAL BUILDER: every block of every explored history (and of every scripted prefix) is also assembled by the real miner worker (miner.worker.commitNewWork: makeCurrent, commitTransactions, EndBlock(isSeal=true), commit; through the build-tagged hook miner.VerifBuildBlock) from a real core.TxPool holding the block's transactions, on a database copy of the pre-block node with the same pending evidences: (i) its block must be accepted unchanged by InsertChain on another database copy of the pre-block node and become head, (ii) it must agree with the mirror builder's block on parent, number, coinbase, gas limit, the five version-state fields, slash data, transactions (set and root), gas used, gas rewards, subsidy, receipts root, bloom, staking/validator/state root, mix digest, extra and the consensus byte fields; when the worker orders transactions of different senders differently (equal gas price: map order inside types.TransactionsByPriceAndNonce) or the pool refuses a transaction, the mirror is run again on the worker's input order and the same comparison is made"
+		r.Assume("real-builder conformance: header Time is NOT compared (the worker reads the wall clock, the mirror uses parent+1; no transaction of the menu reads TIMESTAMP); the worker is wired field by field like newWorker but without its goroutines and subscriptions, one worker and one pool per block (state kept across blocks by a long-running worker - snapshot, interrupt flag - is not exercised); the validator identity (coinbase) is supplied through engine.GetValMainAddress")
 	}
 	r.Assume("Go's per-iteration map order cannot be enumerated by a controlled explorer; the R repeated imports are a sampled supplement for that clause, the exhaustive part is builder/importer agreement over all histories")
 }
